@@ -1,4 +1,5 @@
 import MosnVerif.Lemmas.Updates
+import MosnVerif.Lemmas.UpdatesRm
 /-!
 # C12 — runtime updates are coherent and reproducible from the dumped config (property theorems only)
 
@@ -418,6 +419,13 @@ theorem spec_holds_on_model_nil (o : Oracle) (rnames cnames lnames : List String
   unfold Spec.holds
   rw [Bool.and_eq_true]
   exact ⟨spec_coherent_on_model o [] rnames cnames lnames res, rfl⟩
+
+/-- the predicate of the `rm` cases (one multi-address `RemoveClusterHosts` call: succeeded, live hosts = the initial addresses
+not listed, each once, stored = live, nothing listed still served) is true of the model's observation for EVERY host list
+(duplicates included: `NewHostSet` keeps the first) and EVERY address list. -/
+theorem spec_rm_holds_on_model (o : Oracle) (hosts : List Host) (addrs : List String) :
+    Spec.rmHolds (hosts.map (·.addr)) addrs (rmObserve o hosts addrs) = true :=
+  rmHolds_on_model o hosts addrs
 
 /-! ## non-vacuity: concrete histories exercising the hypotheses -/
 section examples
